@@ -47,6 +47,10 @@ func init() {
 }
 
 func runC05(c *Ctx) {
+	facadeRule(c, "C05.R3b", []facadeSpec{
+		{gsPkg, "Gossip.UpsertLocal", "clusterState).UpsertLocal", "", false},
+		{gsPkg, "Gossip.DeleteLocal", "clusterState).DeleteLocal", "", false},
+	})
 	p := c.P
 	upstreams := p.Field(upPkg, "loadBalancer", "upstreams")
 	localUp := p.Field(upPkg, "LoadBalancedManager", "localUpstreams")
@@ -123,6 +127,70 @@ func c05R1(c *Ctx, upstreams, localUp *types.Var, mgr *types.Named) {
 	} else {
 		c.fail("C05.anchor", "loadBalancer.Remove", token.NoPos, "not found")
 	}
+	// R1d: a balancer is stored into the table only where the table has none for that endpoint
+	for _, f := range methodsOf(p, upPkg, "LoadBalancedManager") {
+		fsx := computeFacts(f)
+		allInstrs(f, func(i ssa.Instruction) {
+			mu, ok := i.(*ssa.MapUpdate)
+			if !ok {
+				return
+			}
+			if _, ok := loadedField(mu.Map, localUp); !ok {
+				return
+			}
+			isMiss := func(facts []Fact) bool {
+				return anyFact(facts, func(ft Fact) bool {
+					ex, ok := ft.V.(*ssa.Extract)
+					if !ok || ex.Index != 1 || ft.T {
+						return false
+					}
+					lk, ok := ex.Tuple.(*ssa.Lookup)
+					if !ok {
+						return false
+					}
+					_, isTab := loadedField(lk.X, localUp)
+					return isTab && sameValue(lk.Index, mu.Key)
+				})
+			}
+			facts := fsx.At(mu.Block())
+			// the value stored is what the table already holds for the key, or an object created where the table has none
+			seen := map[ssa.Value]bool{}
+			var okVal func(v ssa.Value) bool
+			okVal = func(v ssa.Value) bool {
+				v = strip(v)
+				if seen[v] {
+					return true
+				}
+				seen[v] = true
+				switch x := v.(type) {
+				case *ssa.Phi:
+					for _, e := range x.Edges {
+						if !okVal(e) {
+							return false
+						}
+					}
+					return true
+				case *ssa.Extract:
+					lk, ok := x.Tuple.(*ssa.Lookup)
+					if !ok || x.Index != 0 {
+						return false
+					}
+					_, isTab := loadedField(lk.X, localUp)
+					return isTab && sameValue(lk.Index, mu.Key)
+				case *ssa.Lookup:
+					_, isTab := loadedField(x.X, localUp)
+					return isTab && sameValue(x.Index, mu.Key)
+				case ssa.Instruction:
+					return isMiss(fsx.At(x.Block()))
+				}
+				return false
+			}
+			miss := isMiss(facts) || okVal(mu.Value)
+			c.check(miss, "C05.R1d", fnName(f)+"/balancer-stored-only-on-miss", mu.Pos(), "localUpstreams[id] = lb only under `_, ok := localUpstreams[id]; !ok`",
+				"a balancer is stored over an existing one (guard missing or inverted): the upstreams registered for the endpoint are dropped while still advertised; facts "+factStrings(facts))
+		})
+	}
+	c.floor("C05.R1d", 1)
 	// R1b: a freshly created balancer is entered in the table on every path
 	c.floor("C05.R1b", 1)
 	lbT := p.NamedType(upPkg, "loadBalancer")
@@ -384,7 +452,7 @@ func c05R2(c *Ctx) {
 			_, ok = loadedField(ap.Call.Args[0], fv)
 			return ok
 		}
-		end := everyPathFrom(fn.Blocks[0].Instrs[0], isReg, nil, true)
+		end := everyPathEntry(fn, isReg, nil, true)
 		c.check(end == nil, "C05.R2c", fnName(fn)+"/records-subscriber", fn.Pos(), sp.field+" = append("+sp.field+", f) on every path", "a registering subscriber is not recorded: endpoint changes are never published to it")
 	}
 	isParam := func(fn *ssa.Function, v ssa.Value) bool {
